@@ -36,7 +36,9 @@ TRAILS = ["", " ", "\t"]
 EOLS = ["\n", "\r\n"]
 EXTRA_PLAIN = ["0.5", "-2", "+3.0", "7", ".25", "10"]
 EXTRA_EXP = ["1e3", "2.5E-1"]
-COMMENT_LINES = ["# hello", "#", "#x", "  # indented", "# 1 1 0 0 0 1 -1", "## double", "#\ttab", "# trailing  ", "#id type"]
+COMMENT_LINES = ["# hello", "#", "#x", "  # indented", "# 1 1 0 0 0 1 -1", "## double", "#\ttab", "# trailing  ", "#id type",
+                 # characters str.splitlines() takes for line ends but a file handle does not: the comment stays ONE line
+                 "# form\x0cfeed", "# group\x1dseparator 5 3 1 1 1 1 4"]
 BLANK_LINES = ["", " ", "\t", "  \t "]
 SRCS = ["text", "bytes", "path"]
 COLS = ["id", "type", "x", "y", "z", "r", "pid"]
